@@ -19,11 +19,15 @@ class NextRequest(Request, MutableMapping[str, Any]):
 
 
 def ensure_next(iterable: Iterable[bytes]) -> Iterable[bytes]:
-    first_chunk = iterable.__iter__().__next__()
+    iterator = iter(iterable)
+    try:
+        first_chunk = next(iterator)
+    except StopIteration:
+        return ()
 
     def generator():
         yield first_chunk
-        yield from iterable
+        yield from iterator
 
     return generator()
 
